@@ -103,7 +103,7 @@ def wraps_cases(draw):
     if ret in ("ref", "list") and names:
         a = draw(st.sampled_from(names))
         ret_spec["expr"] = draw(st.sampled_from([a, f"{a}**2", f"{a}*{names[0]}", f"{a}/{names[-1]}", f"{names[0]}/{a}", f"{a}**-1", f"{names[0]}/{a}**2"]))
-    return {"params": params, "kw_order": list(kw_order), "strict": draw(st.booleans()), "ret": ret_spec}
+    return {"params": params, "kw_order": list(kw_order), "strict": draw(st.booleans()), "ret": ret_spec, "reuse": draw(st.sampled_from([None, None, "reversed", "renamed"]))}
 
 
 def spec_of(ureg, p):
@@ -246,7 +246,25 @@ def case_wraps(case, col=None):
         rspec = (ret["unit"], None)
     else:
         rspec = ["=" + ret["expr"], ret["unit"]]
-    s, wrapped = attempt(lambda: ureg.wraps(rspec, tuple(spec_of(ureg, p) for p in params), strict=strict)(recorder))
+    def decorate():
+        deco = ureg.wraps(rspec, tuple(spec_of(ureg, p) for p in params), strict=strict)
+        if case.get("reuse"):
+            # the decorator object is first applied to (and used through) a sibling function with the same parameter names in another order, or other
+            # names: the declared units belong to positions, and what the sibling did must not show in the function under test
+            snames = list(reversed(pnames)) if case["reuse"] == "reversed" else [f"s{i}" for i in range(n)]
+            ssig = inspect.Signature([inspect.Parameter(nm, inspect.Parameter.POSITIONAL_OR_KEYWORD) for nm in snames])
+
+            def sibling(*a, **k):
+                return (Fraction(7), Fraction(9)) if ret["kind"] in ("tuple", "list") else Fraction(7)
+
+            sibling.__signature__ = ssig
+            sibling.__name__ = "sibling"
+            sw = deco(sibling)
+            attempt(sw, *objs[:1], **{snames[i]: objs[i] for i in range(1, n)})
+            attempt(sw, **{snames[i]: objs[i] for i in range(n)})
+        return deco(recorder)
+
+    s, wrapped = attempt(decorate)
     if s == "err":
         raise Violation(f"valid_decoration_refused:{exc_class(wrapped)}", f"wraps({rspec!r}, {[spec_of(ureg, p) for p in params]!r}) raised {type(wrapped).__name__}: {wrapped}")
     pos = [objs[i] for i, p in enumerate(params) if p["pass"] == "pos"]
@@ -255,7 +273,9 @@ def case_wraps(case, col=None):
         has_ref = any(p["kind"] == "ref" for p in params)
         nonpos = any(p["pass"] != "pos" for p in params)
         kwidx = case["kw_order"]
-        col.case(("w", str(case)), (has_ref and nonpos) or _none_between_units(params), sample=_sample(case), cls="strict" if strict else "lenient")
+        col.case(("w", str(case)), (has_ref and nonpos) or _none_between_units(params) or bool(case.get("reuse")), sample=_sample(case), cls="strict" if strict else "lenient")
+        if case.get("reuse"):
+            col.count("decorator_object_reused")
         if has_ref and nonpos:
             col.count("keyword_or_default_with_reference")
         if kwidx != sorted(kwidx) or any(params[i]["pass"] == "omit" and any(params[j]["pass"] == "kw" for j in range(i + 1, n)) for i in range(n)):
@@ -313,7 +333,7 @@ def _none_between_units(params):
 
 def _sample(case):
     return {"specs": [(p["kind"], p.get("unit") or p.get("name") or p.get("expr")) for p in case["params"]],
-            "call": [(p["pass"], p["arg"]["how"], p["arg"].get("unit"), str(p["arg"]["x"])) for p in case["params"]], "kw_order": case["kw_order"], "strict": case["strict"], "ret": case["ret"]["kind"]}
+            "call": [(p["pass"], p["arg"]["how"], p["arg"].get("unit"), str(p["arg"]["x"])) for p in case["params"]], "kw_order": case["kw_order"], "strict": case["strict"], "ret": case["ret"]["kind"], "reuse": case.get("reuse")}
 
 
 def run_wraps(task, tier, seed, col):
@@ -431,8 +451,56 @@ def case_check(case, col=None):
         raise Violation("check_changed_return_value", f"{out!r}")
 
 
+def case_dimname(case, col=None):
+    """check('[name]') for every derived dimension name of the bundled definitions, against the SI base exponents written down in oracle/dimtable.py:
+    a quantity in exactly those base units passes, one with a base exponent off by one (or a foreign base factor) is refused; same for wraps with a named SI unit"""
+    import pint
+
+    from ..oracle.dimtable import NAMED_DIMS, NAMED_UNITS
+
+    ureg = env.ureg("Fraction")
+    name, form = case["name"], case["form"]
+    if col is not None:
+        col.case(("n", name, form, case["perturb"]), True, sample=case, cls="dimname:" + form)
+    exps = dict(NAMED_DIMS[name] if form != "wraps" else NAMED_UNITS[name])
+    if case["perturb"]:
+        b, d = case["perturb"]
+        exps[b] = exps.get(b, 0) + d
+        exps = {k: v for k, v in exps.items() if v}
+    q = ureg.Quantity(Fraction(3), ureg.UnitsContainer(exps)) if exps else (ureg.Quantity(Fraction(3), "") if form != "wraps" else ureg.Quantity(Fraction(3), ""))
+    if form == "check":
+        s, out = attempt(ureg.check(name)(lambda x: "called"), q)
+    elif form == "qcheck":
+        s, out = attempt(lambda: q.check(name))
+        if s == "ok":
+            s, out = ("ok", "called") if out is True else ("err", pint.DimensionalityError(q.units, name)) if out is False else ("ok", out)
+    else:
+        s, out = attempt(ureg.wraps(None, (name,))(lambda x: x), q)
+        if s == "ok" and not case["perturb"]:
+            out = "called" if out == 3 and not hasattr(out, "_units") else out
+    if case["perturb"]:
+        if s == "ok":
+            raise Violation(f"check_accepted_wrong_dimension:named:{name}", f"{form} with {name!r} accepted {q!r}; {name} is {NAMED_DIMS.get(name, NAMED_UNITS.get(name))} in SI base units")
+        if not isinstance(out, pint.DimensionalityError):
+            raise Violation(f"check_wrong_exception:named:{exc_class(out)}", f"{form} with {name!r} on {q!r}: {out!r}")
+    elif s == "err":
+        raise Violation(f"check_refused_correct_call:named:{name}", f"{form} with {name!r} refused {q!r}: {type(out).__name__}: {out}; {name} is {NAMED_DIMS.get(name, NAMED_UNITS.get(name))} in SI base units")
+    elif out != "called":
+        raise Violation(f"named_unit_wrong_value:{name}", f"{form} with {name!r} on {q!r} handed over {out!r}, expected 3 (the SI units with special names are coherent)")
+
+
 def run_check(task, tier, seed, col):
     _dimexpr_selfcheck()
+    if task["shard"] == 0:
+        from ..oracle.dimtable import _B, NAMED_DIMS, NAMED_UNITS
+
+        for name in NAMED_DIMS:
+            for form in ("check", "qcheck"):
+                for perturb in [None] + [(b, d) for b in _B for d in (1, -1)]:
+                    col.run_case(lambda c: case_dimname(c, col), {"name": name, "form": form, "perturb": perturb})
+        for name in NAMED_UNITS:
+            for perturb in [None] + [(b, d) for b in _B[:4] for d in (1, -1)]:
+                col.run_case(lambda c: case_dimname(c, col), {"name": name, "form": "wraps", "perturb": perturb})
     hyp_search(col, check_cases(), lambda c: case_check(c, col), max_examples=400 if tier == "quick" else 8000, seed=seed * 269 + task["shard"])
 
 
@@ -498,5 +566,9 @@ def run_task(task, tier, seed, col):
     {"wraps": run_wraps, "check": run_check, "decoration": run_decoration}[task["sub"]](task, tier, seed, col)
 
 
+def _replay_check(case):
+    return case_dimname(case) if "perturb" in case else case_check(case)
+
+
 def replay(sub, case):
-    return {"wraps": case_wraps, "check": case_check, "decoration": case_decoration}[sub](case)
+    return {"wraps": case_wraps, "check": _replay_check, "decoration": case_decoration}[sub](case)
